@@ -19,6 +19,11 @@ NOTES = {
     "C14-P": "manifests only on streams outside C14's stated domain (data bytes without status directly behind a sysex: the sysex has cancelled the running status, so this is no legal elision); caught by C06, which quantifies over all byte streams",
     "C14-R": "the same mechanism as C14-P (a sysex the listener did not ask for no longer cancels the running status): shows only on streams outside C14's stated domain; caught by C06",
     "C04-R": "a single real-time byte that the listener's options filter out swallows the time that had passed (testdrv): the listener of C04 asks for every class, so nothing is filtered there; what a switched-off class may not do to the time stamps of the others is C14's statement, and C14 (l1-filter-timestamp) and C13 (delta) catch it",
+    "C14-S": "the same mechanism as C14-P and C14-R (a skipped sysex no longer cancels the running status): shows only on streams outside C14's stated domain; caught by C06",
+    "C17-S": "a real-time byte inside a sysex that arrives in one Send is swallowed: a defect of the decoder (C04's statement: real-time bytes inside sysex), not of the port lifecycle; the lifecycle histories send whole messages; caught by C04 (l1-count, pairs)",
+    "C03-T": "NOT CAUGHT, by construction: WriteTo writes a track as a copy of an earlier one when event count, byte count and a CRC-32 over the events agree; two different tracks collide with probability 2^-32 (the demonstration's pair came from a birthday search). No workload short of a search for collisions of that particular hash reaches it; a runtime monitor observes executions, it does not invert hash functions",
+    "C18-T": "NOT CAUGHT, a needle: manufacturer 41, model 16, one of eight particular addresses (04 00 00 + k*246) and a payload of 1..9 bytes at the same time (about 1e-7 per value even for a generator that knows Roland); the corner values of the three-byte fields do not contain these addresses. A device dictionary would, but would say nothing about the next device",
+    "C20-T": "NOT CAUGHT, a blind spot left open: a song imported with FromSMF from a file whose events lie off the 32nd grid keeps a hidden absolute position per event that the changed export prefers to Pos; the C20 songs are built from bars and events (AddBar), imported songs are not driven. Closing it needs an export check on Song objects the check did not build itself (expected layout from the object's exported fields)",
     "C17-F": "detection depends on which helper process dies first: violated (Send fails) in most runs, otherwise inconclusive (probe never observed), never 'held'",
 }
 
@@ -73,6 +78,8 @@ FIRST_PASS_MISSES = {
     "P": ["C01-P", "C02-P", "C07-P", "C14-P", "C17-P"],
     "Q": ["C08-Q", "C09-Q", "C14-Q"],
     "R": ["C01-R", "C02-R", "C04-R", "C07-R", "C11-R", "C12-R", "C14-R", "C15-R"],
+    "S": ["C02-S", "C07-S", "C14-S", "C15-S", "C17-S"],
+    "T": ["C01-T", "C02-T", "C03-T", "C05-T", "C08-T", "C09-T", "C11-T", "C14-T", "C17-T", "C18-T", "C20-T"],
 }
 summary = ["| wave | changes | caught by the quick check of their own property | not caught by it |", "|---|---|---|---|"]
 for wave, (n, okn, miss) in per_wave.items():
